@@ -19,7 +19,8 @@ BODIES = {
     "attr-target": ['"stray string"', "self.x = 5"],
     "single": ["print(alpha)"],
 }
-RETURNS = {"none": None, "name": "return total", "expr": "return alpha * beta", "tuple": "return alpha, beta"}
+RETURNS = {"none": None, "name": "return total", "expr": "return alpha * beta", "tuple": "return alpha, beta",
+           "zero": "return 0", "false": "return False", "empty": "return ''", "bare": "return", "none-const": "return None"}
 DOC_RET = ("", "\n\n    :returns: the result\n    :rtype: ```int```")
 
 
